@@ -1046,6 +1046,18 @@ class Chunk(Pipeline):
                 ref.append([rng.randrange(6), a, b])
                 if idx_names and rng.random() < 0.3:
                     ref.append([rng.randrange(6), a, b])  # e.g. a word and its tag on the same segment
+            if rng.random() < 0.15:
+                # a long transcript: vectorised code may change algorithm with size
+                T = rng.randrange(20, 31)
+                ali = [rng.randrange(4) for _ in range(T)]
+                ref, segs = [], set()
+                for _ in range(rng.randrange(17, 26)):
+                    a = rng.randrange(0, T)
+                    b = rng.randrange(a + 1, min(T, a + 6) + 1)
+                    if (a, b) in segs and not idx_names:
+                        continue
+                    segs.add((a, b))
+                    ref.append([rng.randrange(6), a, b])
             if rng.random() < 0.7 and (0, T) not in segs and ref:
                 # a final token spanning to the end: makes 'lens omitted' cover every segment
                 ref.append([rng.randrange(6), rng.randrange(0, T), T])
